@@ -232,6 +232,8 @@ detail::TypedArgBase*
    arg_hdl->setConstraintsContainer( &mConstraints);
 
    mSubGroupArgs.addArgument( arg_hdl, key);
+   // the key may not be used by a 'normal' argument of this handler either
+   mArguments.checkArgMix( "arguments", "sub-group arguments", mSubGroupArgs);
    mDescription.addArgument( desc, arg_hdl);
 
    return arg_hdl;
@@ -1357,6 +1359,8 @@ detail::TypedArgBase* Handler::internAddArgument( detail::TypedArgBase* ah_obj,
    ah_obj->setConstraintsContainer( &mConstraints);
 
    mArguments.addArgument( ah_obj, key);
+   // the key may not be used by an argument that starts a sub-group either
+   mSubGroupArgs.checkArgMix( "sub-group arguments", "arguments", mArguments);
    mDescription.addArgument( desc, ah_obj);
 
    if (mUsedByGroup)
